@@ -15,7 +15,7 @@ The extractor is deliberately dumb (regex over items whose shape is stable in th
 fails closed: anything it cannot find raises, and the caller reports a broken tie.
 Files are rewritten only when their content changes so that `make` stays incremental.
 """
-import hashlib
+import hashlib, shutil
 import json
 import os
 import re
@@ -617,6 +617,12 @@ def main():
     if "--write-baseline" in sys.argv:
         with open(base_path, "w") as f:
             json.dump(fp, f, indent=0, sort_keys=True)
+        # the generated model files of the baseline source: check.py falls back to them to SEARCH for a failing
+        # input when the files generated from a changed source no longer build (never to accept anything)
+        bdir = os.path.join(os.path.dirname(os.path.abspath(__file__)), "gen.baseline")
+        os.makedirs(bdir, exist_ok=True)
+        for name in ["Tables.v", "Consts.v", "Layout.v", "TempName.v", "Funs.v", "MmapCfg.v"]:
+            shutil.copy(os.path.join(OUT, name), os.path.join(bdir, name))
     changed = []
     if os.path.exists(base_path):
         base = json.load(open(base_path))
